@@ -10,6 +10,7 @@ from __future__ import annotations
 
 import copy
 import os
+import random
 
 from sim import gen, rules, util
 
@@ -58,8 +59,13 @@ def _workload(rng, runner):
     # document faults need something to bite on: keep the feature set rich
     if rng.random() < 0.5:
         feats |= {"macros"}
+    # (a side generator for the size dimension, so that every other choice of the workload stays what it was)
+    rng_s = random.Random(int(util.digest(list(rng.getstate()[1][:16]))[:16], 16))
     if binary:
         src, meta = gen.gen_asm_source(rng, random_bytes_p=0.15)
+        if rng_s.random() < 0.2:
+            # a file of some size (data that objdump -d does not print): thresholds on the input size
+            src += f'\n\t.section .rodata.pad,"a"\n\t.zero {rng_s.choice([70_000, 300_000, 1_200_000])}\n'
         elf = gen.assemble(src)
         if elf is None:
             return None
@@ -77,6 +83,12 @@ def _workload(rng, runner):
         inp = BIN
     else:
         text, _ins = gen.gen_listing(rng)
+        if rng_s.random() < 0.06:
+            # a listing of some size: the generated window first, a long tail of ordinary lines after it
+            sub = random.Random(rng_s.getrandbits(64))
+            tail, _e = gen.render_listing(sub, [gen.gen_instruction(sub, addr_pool=[0x10, 0x2000]) for _ in range(sub.choice([1800, 2600]))],
+                                          base=0x900000, section=".text.tail", header=False)
+            text += tail
         files[ASM] = text
         inp = ASM
     dec = gen.decode_listing(text)
